@@ -80,10 +80,16 @@ func runSolver(ctx context.Context, s solverSpec, file string, timeout int) (str
 	cmd.Stderr = &out
 	cmd.Run()
 	txt := out.String()
-	first := strings.TrimSpace(strings.SplitN(txt, "\n", 2)[0])
-	switch first {
-	case "sat", "unsat", "unknown":
-		return first, txt
+	for _, ln := range strings.Split(txt, "\n") {
+		first := strings.TrimSpace(ln)
+		if strings.HasPrefix(first, "WARNING") || first == "" {
+			continue
+		}
+		switch first {
+		case "sat", "unsat", "unknown":
+			return first, txt
+		}
+		break
 	}
 	if strings.Contains(txt, "timeout") || c.Err() != nil {
 		return "timeout", txt
